@@ -45,10 +45,108 @@ def _err_arm(fn):
     return None
 
 
+
+def _gate_fns(facts):
+    """the Heap queries in front of run_gc's early return"""
+    gc = facts.fns.get(RUN_GC)
+    if gc is None:
+        return set()
+    marks = [bb for bb, t in gc.calls() if (callee(t) or "").startswith(HEAP + "mark") or callee(t) == HEAP + "sweep"]
+    return {callee(t) for bb, t in gc.calls() if (callee(t) or "").startswith(HEAP) and callee(t) in facts.fns
+            and not any(gc.dominates(m, bb) for m in marks) and not (callee(t) or "").startswith(HEAP + "mark")}
+
+
+def _gate_leaves_false(facts):
+    """(ok, why): once past its gate, run_gc ends with the gate false — the growth decision after the sweep is the gate's own
+    occupancy test (same shape, or the same sub-predicate), and every other field the gate reads is reset to a constant by the
+    sweep"""
+    from .. import shapes
+    from ..flow import fields_read_of_self
+    gc = facts.fns.get(RUN_GC)
+    gate = sorted(_gate_fns(facts))
+    if gc is None or len(gate) != 1:
+        return False, "run_gc's gate is not a single predicate of the heap (%s)" % ", ".join(short_path(g) for g in gate)
+    gf = facts.fns[gate[0]]
+    norm = lambda sh: re.sub(r"\ba1\.heap\b", "a1", sh)
+    gate_conds = set()
+    for bb, b in enumerate(gf.blocks):
+        t = b["term"]
+        if t["k"] == "switch" and not b.get("cleanup"):
+            gate_conds.add(norm(shapes.shape(gf, t["op"], 5)))
+    gate_subs = {callee(t) for bb, t in gf.calls() if callee(t) in facts.fns}
+    grows = [(bb, t) for bb, t in gc.calls() if callee(t) == HEAP + "grow"]
+    if not grows:
+        return False, "run_gc never grows the heap"
+    agree = False
+    for bb, t in grows:
+        for g in shapes.guard_shapes(gc, bb, None, 5):
+            if not g.endswith("=T"):
+                continue
+            body = norm(g[:-2])
+            if body in gate_conds:
+                agree = True
+            m = re.match(r"([A-Za-z0-9_:<>]+)\(a1\)$", body)
+            if m and any(short_path(x) == m.group(1) for x in gate_subs):
+                agree = True
+    if not agree:
+        return False, "the growth decision after the sweep is not the gate's occupancy test: at an occupancy the gate accepts and the growth test refuses, a collection that frees nothing leaves the gate true"
+    # the non-occupancy fields the gate reads are reset by the sweep
+    occ = {"heap", "free_list", "heap_map", "chunk_size"}
+    read = _self_fields_read(facts, gate[0]) - occ
+    sw = facts.fns.get(HEAP + "sweep")
+    reset = set()
+    if sw is not None:
+        for bb, j, st in sw.stmts():
+            lp = st["lhs"]
+            if lp["l"] == 1 and len(lp["p"]) >= 2 and lp["p"][0] == "*" and isinstance(lp["p"][1], dict) and "n" in lp["p"][1]:
+                if st["rv"]["k"] == "use" and op_const(st["rv"]["a"]) is not None:
+                    reset.add(lp["p"][1]["n"])
+    if read - reset:
+        return False, "the gate reads Heap.%s, which the sweep does not reset to a constant" % ", ".join(sorted(read - reset))
+    return True, "growth test = gate's occupancy test; %s reset by the sweep" % (", ".join(sorted(read)) or "no other field")
+
+
+def _collect_and_hand_back(facts, fn, b, ones):
+    """every instruction-free path to the Ok(None) block `b` passes run_gc under the true edge of the collector's gate"""
+    from ..shapes import dominating_guards
+    gate = _gate_fns(facts)
+    gcs = [bb for bb, t in fn.calls() if callee(t) == RUN_GC]
+    if not gate or not gcs:
+        return False
+    if b in fn.reach_from(0, avoid=set(ones) | set(gcs)):
+        return False
+    for g in gcs:
+        if b not in fn.reach_from(g, avoid=set(ones)):
+            continue
+        under = False
+        for sb, cond, taken, tt in dominating_guards(fn, g):
+            o = fn.origin(cond)
+            if o[0] == "call" and callee(o[1]) in gate and taken != 0:
+                under = True
+        if not under:
+            return False
+    return _gate_leaves_false(facts)[0]
+
+
+def r13g(ctx, rep, rule="R13g"):
+    facts = ctx["facts"]
+    rep.rule(rule, "a collection settles the question it was run for: once past its gate, run_gc ends with the gate false — the test "
+             "that decides growth after the sweep is the gate's own occupancy test (the same comparison, or the same "
+             "sub-predicate), and every other quantity the gate reads is reset by the sweep. A gate that accepts an occupancy "
+             "the growth test refuses (>= 75% against > 75%) collects again and again at that occupancy, and any caller that "
+             "hands a slice back while a collection is due never gets out.")
+    ok, why = _gate_leaves_false(facts)
+    gc = facts.fns.get(RUN_GC)
+    (rep.ok if ok else rep.fail)(rule, rule + "|run_gc|gate-false-afterwards",
+                                 "run_gc leaves no collection due (%s)" % why if ok else
+                                 "run_gc can return with a collection still due: %s" % why, [gc.span] if gc else [])
+
 def r13a(ctx, rep, rule="R13a"):
     facts = ctx["facts"]
     rep.rule(rule, "every slice makes progress (must-pass-through): every path from the entry of Vm::run_count to a "
-             "return of Ok(None) (budget exhausted) contains a call of run_one.")
+             "return of Ok(None) (budget exhausted) contains a call of run_one — or is a collect-and-hand-back path: it runs "
+             "run_gc under the true edge of the collector's own gate, which run_gc leaves false (R13g), so that it cannot be "
+             "taken twice in a row.")
     fn = need(rep, rule, facts, RUN_COUNT)
     if fn is None:
         return
@@ -60,7 +158,11 @@ def r13a(ctx, rep, rule="R13a"):
     free = fn.reach_from(0, avoid=ones)
     for i, b in enumerate(nb):
         key = "%s|run_count|ok-none#%d" % (rule, i + 1)
-        if b in free:
+        if b in free and _collect_and_hand_back(facts, fn, b, ones):
+            rep.ok(rule, key, "an instruction-free path to the budget-exhausted return exists, but only through run_gc under the "
+                   "collector's own gate, and run_gc leaves the gate false (R13g): the slice is handed back once after "
+                   "collecting and the next resume executes", [fn.span])
+        elif b in free:
             rep.fail(rule, key, "run_count can return Ok(None) without executing any instruction (entry reaches the "
                      "budget-exhausted return avoiding run_one): a caller resuming with that budget never makes progress",
                      [fn.blocks[b]["stmts"][0]["loc"] if fn.blocks[b]["stmts"] else fn.span])
@@ -776,9 +878,10 @@ def r12f(ctx, rep, rule="R12f"):
 
 def r12g(ctx, rep, rule="R12g"):
     facts = ctx["facts"]
-    rep.rule(rule, "every slice collects: the periodic collection in run_count is driven by a counter local to one call, "
-             "so an embedder resuming with budgets below the period never reaches it; therefore every path to the "
-             "budget-exhausted return Ok(None) must itself pass a call of run_gc.")
+    rep.rule(rule, "every slice collects when a collection is due: a collection driven by a counter local to one call of run_count "
+             "is never reached by an embedder resuming with budgets below the period; therefore either the dispatch loop "
+             "consults the collector's gate before every instruction (R12q), or every path to the budget-exhausted return "
+             "Ok(None) itself passes a call of run_gc.")
     fn = need(rep, rule, facts, RUN_COUNT)
     if fn is None:
         return
@@ -788,9 +891,14 @@ def r12g(ctx, rep, rule="R12g"):
         rep.anchor_lost(rule, "Ok(None) return in run_count")
         return
     # unconditional collection: a run_gc block that dominates the return block and lies after the last loop exit
+    every = _gate_every_instruction(facts)
     for i, b in enumerate(nb):
         ok = any(fn.dominates(g, b) and not any(h in fn.reach_from(g) for _, h in fn.back_edges()) for g in gcs)
         key = "%s|run_count|ok-none#%d-collects" % (rule, i + 1)
+        if not ok and every:
+            rep.ok(rule, key, "the budget-exhausted return does not collect itself, but the dispatch loop consults the collector's "
+                   "gate before every instruction (R12q): no budget, however small, gets past a collection that is due", [fn.span])
+            continue
         (rep.ok if ok else rep.fail)(rule, key, "the budget-exhausted return is dominated by a run_gc call outside the loop" if ok
                                      else "run_count can return Ok(None) without calling run_gc: with budgets below the "
                                      "collection period no collection ever runs during a sliced evaluation and the heap "
@@ -999,6 +1107,22 @@ def r12p(ctx, rep, rule="R12p"):
     rep.floor(rule, "sized kinds weighed", n, len(SIZED_KINDS))
 
 
+
+def _gate_every_instruction(facts):
+    """does a call of run_gc, or of one of the Heap queries its gate uses, dominate run_one inside run_count's dispatch loop?"""
+    f = facts.fns.get(RUN_COUNT)
+    if f is None:
+        return False
+    gate = _gate_fns(facts)
+    ones = [bb for bb, t in f.calls() if callee(t) == RUN_ONE]
+    if not ones:
+        return False
+    loops = [(h, (f.reach_from(h) & f.reach_back(src)) | {h, src}) for src, h in f.back_edges()]
+    body = set().union(*[b for h, b in loops if ones[0] in b]) if loops else set()
+    checks = [bb for bb, t in f.calls() if bb in body and (callee(t) == RUN_GC or callee(t) in gate)]
+    return any(f.dominates(c, ones[0]) and c != ones[0] for c in checks)
+
+
 def r12q(ctx, rep, rule="R12q"):
     """the gate is consulted between any two instructions"""
     facts = ctx["facts"]
@@ -1022,8 +1146,7 @@ def r12q(ctx, rep, rule="R12q"):
     if not body:
         rep.anchor_lost(rule, "dispatch loop of run_count")
         return
-    checks = [bb for bb, t in f.calls() if bb in body and (callee(t) == RUN_GC or callee(t) in gate)]
-    ok = any(f.dominates(c, ones[0]) and c != ones[0] for c in checks)
+    ok = _gate_every_instruction(facts)
     key = rule + "|run_count|gate-before-every-instruction"
     (rep.ok if ok else rep.fail)(
         rule, key, "the dispatch loop consults the collection gate before every run_one" if ok else
